@@ -1,2 +1,485 @@
-// Package c08 decides C08 (see DESIGN.md section 4). Not built yet.
+// Package c08 decides C08 (panics, deferred calls, recover, run-time errors).
+//
+// spec/Unwind.tla is the reference semantics of defer/panic/recover/Goexit;
+// spec/UnwindScen.tla enumerates function families with the predicted outcome;
+// spec/RtePanics.tla (see rte.go) enumerates the operations that must raise a
+// run-time error, with their evaluation order.  Every scenario is rendered as
+// Go, compiled by the compiler under test, run under Node (one execution per
+// scenario) and compared with the prediction; the reference toolchain guards
+// the specification.
 package c08
+
+import (
+	"encoding/json"
+	"fmt"
+	"math/rand"
+	"path/filepath"
+	"sort"
+	"strconv"
+	"strings"
+	"time"
+
+	"verif/core"
+	"verif/gjs"
+	"verif/reg"
+	"verif/tlcx"
+)
+
+func init() { reg.Register("C08", "model_checking", Run) }
+
+// Op is one operation of a function body (tuple form of Unwind.tla).
+type Op struct {
+	Kind string
+	A, B int
+	D    *Op // defer
+}
+
+func (o *Op) UnmarshalJSON(b []byte) error {
+	var a []json.RawMessage
+	if err := json.Unmarshal(b, &a); err != nil {
+		return err
+	}
+	if err := json.Unmarshal(a[0], &o.Kind); err != nil {
+		return err
+	}
+	if o.Kind == "defer" {
+		o.D = &Op{}
+		return json.Unmarshal(a[1], o.D)
+	}
+	if len(a) > 1 {
+		json.Unmarshal(a[1], &o.A)
+	}
+	if len(a) > 2 {
+		json.Unmarshal(a[2], &o.B)
+	}
+	return nil
+}
+
+type outcome struct {
+	Obs [][]json.RawMessage `json:"obs"`
+	End string              `json:"end"`
+	Val int                 `json:"val"`
+}
+
+type scenario struct {
+	P    [][]Op  `json:"P"`
+	Out  outcome `json:"out"`
+	raw  string
+	want []string
+}
+
+func (s *scenario) lines() []string {
+	var ls []string
+	for _, t := range s.Out.Obs {
+		var parts []string
+		for _, x := range t {
+			var str string
+			if json.Unmarshal(x, &str) == nil {
+				parts = append(parts, str)
+			} else {
+				parts = append(parts, string(x))
+			}
+		}
+		ls = append(ls, strings.Join(parts, " "))
+	}
+	return ls
+}
+
+func panicExpr(v int) string {
+	switch v {
+	case 1:
+		return "panic(1)"
+	case 2:
+		return "panic(\"two\")"
+	default:
+		return "panic(errV{3})"
+	}
+}
+
+const prelude = `package main
+
+import "runtime"
+
+type errV struct{ n int }
+
+func (e errV) Error() string { return "errV" }
+
+var zero = 0
+var one = 1
+var nilmap map[int]int
+
+func has(s, sub string) bool {
+	for i := 0; i+len(sub) <= len(s); i++ {
+		if s[i:i+len(sub)] == sub {
+			return true
+		}
+	}
+	return false
+}
+
+// pv maps a recovered value to the value numbers of the specification.
+func pv(v any) int {
+	switch x := v.(type) {
+	case nil:
+		return 0
+	case int:
+		return x
+	case string:
+		return 2
+	case errV:
+		return 3
+	case runtime.Error:
+		m := x.Error()
+		switch {
+		case has(m, "divide by zero"):
+			return 11
+		case has(m, "nil map"):
+			return 12
+		}
+		return 97
+	case error:
+		return 98
+	}
+	return 99
+}
+
+`
+
+func renderOps(b *strings.Builder, n int, ops []Op) {
+	for _, op := range ops {
+		switch op.Kind {
+		case "emit":
+			fmt.Fprintf(b, "\tprintln(\"e\", %d)\n", op.A)
+		case "set":
+			fmt.Fprintf(b, "\tr = %d\n", op.A)
+		case "ret":
+			fmt.Fprintf(b, "\treturn %d\n", op.A)
+		case "panic":
+			fmt.Fprintf(b, "\t%s\n", panicExpr(op.A))
+		case "rte":
+			if op.A == 1 {
+				b.WriteString("\tr = one / zero\n")
+			} else {
+				b.WriteString("\tnilmap[1] = 1\n")
+			}
+		case "call":
+			fmt.Fprintf(b, "\t{\n\t\tx := s%d_F%d()\n\t\tprintln(\"c\", %d, x)\n\t}\n", n, op.A, op.A)
+		case "recover":
+			fmt.Fprintf(b, "\t{\n\t\tv := recover()\n\t\tprintln(\"rec\", %d, pv(v))\n\t}\n", op.A)
+		case "goexit":
+			b.WriteString("\truntime.Goexit()\n")
+		case "defer":
+			d := op.D
+			switch d.Kind {
+			case "emit":
+				fmt.Fprintf(b, "\tdefer func(x int) { println(\"d\", %d, x) }(r)\n", d.A)
+			case "rec":
+				fmt.Fprintf(b, "\tdefer func() {\n\t\tv := recover()\n\t\tprintln(\"rec\", %d, pv(v))\n\t}()\n", d.A)
+			case "recnest":
+				fmt.Fprintf(b, "\tdefer func() {\n\t\tfunc() {\n\t\t\tv := recover()\n\t\t\tprintln(\"rec\", %d, pv(v))\n\t\t}()\n\t}()\n", d.A)
+			case "recbuiltin":
+				b.WriteString("\tdefer recover()\n")
+			case "setres":
+				fmt.Fprintf(b, "\tdefer func() { r = %d }()\n", d.A)
+			case "recset":
+				fmt.Fprintf(b, "\tdefer func() {\n\t\tif x := recover(); x != nil {\n\t\t\tprintln(\"rec\", %d, pv(x))\n\t\t\tr = %d\n\t\t}\n\t}()\n", d.A, d.B)
+			case "repanic":
+				fmt.Fprintf(b, "\tdefer func() {\n\t\tx := recover()\n\t\tprintln(\"rec\", %d, pv(x))\n\t\tif x != nil {\n\t\t\tpanic(x)\n\t\t}\n\t}()\n", d.A)
+			case "panic":
+				fmt.Fprintf(b, "\tdefer func() { %s }()\n", panicExpr(d.A))
+			case "call":
+				fmt.Fprintf(b, "\tdefer s%d_F%d()\n", n, d.A)
+			}
+		}
+	}
+}
+
+func render(batch []*scenario) map[string]string {
+	var b strings.Builder
+	b.WriteString(prelude)
+	for n, s := range batch {
+		for fi, ops := range s.P {
+			fmt.Fprintf(&b, "func s%d_F%d() (r int) {\n", n, fi+1)
+			renderOps(&b, n, ops)
+			b.WriteString("\treturn\n}\n\n")
+		}
+	}
+	b.WriteString("func run(n int) int {\n\tswitch n {\n")
+	for n := range batch {
+		fmt.Fprintf(&b, "\tcase %d:\n\t\treturn s%d_F1()\n", n, n)
+	}
+	b.WriteString("\t}\n\treturn -1\n}\n\n")
+	b.WriteString("func main() {\n\tdone := make(chan bool)\n\tgo func() {\n\t\tx := run(argN())\n\t\tprintln(\"ret\", x)\n\t\tdone <- true\n\t}()\n\t<-done\n}\n")
+	return map[string]string{"main.go": b.String(), "args_js.go": argsJS, "args_native.go": argsNative}
+}
+
+const argsJS = `//go:build js
+
+package main
+
+import "github.com/gopherjs/gopherjs/js"
+
+func argN() int { return js.Global.Get("process").Get("argv").Index(2).Int() }
+`
+
+const argsNative = `//go:build !js
+
+package main
+
+import "os"
+
+func argN() int {
+	n := 0
+	for _, c := range os.Args[1] {
+		n = n*10 + int(c-'0')
+	}
+	return n
+}
+`
+
+// panicCode maps the message of an uncaught panic to the specification's value number (-1 unknown).
+func panicCode(msg string) int {
+	msg = strings.TrimSpace(msg)
+	switch {
+	case strings.Contains(msg, "divide by zero"):
+		return 11
+	case strings.Contains(msg, "nil map"):
+		return 12
+	case msg == "1" || strings.HasPrefix(msg, "1 ") || msg == "main.int(1)":
+		return 1
+	case msg == "two" || msg == `"two"` || strings.HasPrefix(msg, "two ") || strings.HasPrefix(msg, `"two" `):
+		return 2
+	case strings.HasPrefix(msg, "errV") || strings.Contains(msg, "main.errV"):
+		return 3
+	}
+	return -1
+}
+
+func (s *scenario) hasOp(pred func(Op) bool) bool {
+	for _, f := range s.P {
+		for _, op := range f {
+			if pred(op) {
+				return true
+			}
+		}
+	}
+	return false
+}
+
+// classify returns the known-finding keys a failing scenario satisfies.
+func classify(s *scenario) []string {
+	var keys []string
+	deferKind := func(k string) func(Op) bool {
+		return func(o Op) bool { return o.Kind == "defer" && o.D.Kind == k }
+	}
+	anyDefer := func(o Op) bool { return o.Kind == "defer" }
+	raises := func(o Op) bool {
+		return o.Kind == "panic" || o.Kind == "rte" || (o.Kind == "defer" && o.D.Kind == "panic")
+	}
+	if s.hasOp(deferKind("recbuiltin")) && s.hasOp(raises) {
+		keys = append(keys, "defer_recover_builtin_recovers")
+	}
+	if s.hasOp(func(o Op) bool { return o.Kind == "goexit" }) && s.hasOp(anyDefer) {
+		keys = append(keys, "goexit_in_frame_with_defer")
+	}
+	return keys
+}
+
+func runScenarios(c *core.Ctx, pool *gjs.Pool, scens []*scenario) {
+	const per = 200
+	nb := (len(scens) + per - 1) / per
+	type fail struct {
+		s   *scenario
+		got gjs.Obs
+		why string
+	}
+	fails := make([][]fail, nb)
+	discards := make([]int, nb)
+	c.ParMap(nb, func(bi int) {
+		lo, hi := bi*per, (bi+1)*per
+		if hi > len(scens) {
+			hi = len(scens)
+		}
+		batch := scens[lo:hi]
+		prog := gjs.Prog{Files: render(batch)}
+		dir, err := prog.Materialise(c.Scratch)
+		if err != nil {
+			c.Infra(err)
+			return
+		}
+		out := filepath.Join(dir, "out.js")
+		if err := pool.Build(dir, out, gjs.Opts{}); err != nil {
+			if be, ok := err.(*gjs.BuildError); ok && be.Panic {
+				c.Report(core.Case{Keys: []string{"compiler_panic"}, Summary: "compiler internal error: " + be.Error(), Files: prog.ReplayFiles("prog")})
+			} else {
+				c.Infra(fmt.Errorf("gopherjs build: %v", err))
+			}
+			return
+		}
+		bin := filepath.Join(dir, "native.bin")
+		if r := gjs.NativeBuild(dir, bin); r.ExitCode != 0 || r.Err != nil {
+			c.Infra(fmt.Errorf("reference toolchain rejected a generated program: %s", r.Out))
+			return
+		}
+		jobs := make([]gjs.Job, len(batch))
+		for n := range batch {
+			jobs[n] = gjs.Job{Args: []string{strconv.Itoa(n)}, MaxSteps: 2000}
+		}
+		obs, err := gjs.NodeMulti(out, jobs, 5*time.Minute)
+		if err != nil {
+			c.Infra(err)
+			return
+		}
+		for n, s := range batch {
+			nat := gjs.ClassifyNative(gjs.NativeRun(bin, 20*time.Second, nil, strconv.Itoa(n)))
+			agree := func(o gjs.Obs) (bool, string) {
+				if o.End != s.Out.End {
+					return false, fmt.Sprintf("ends with %s (%s), predicted %s", o.End, o.Msg, s.Out.End)
+				}
+				if len(o.Lines) != len(s.want) {
+					return false, fmt.Sprintf("printed %d lines, predicted %d", len(o.Lines), len(s.want))
+				}
+				for i := range o.Lines {
+					if o.Lines[i] != s.want[i] {
+						return false, fmt.Sprintf("line %d is %q, predicted %q", i+1, o.Lines[i], s.want[i])
+					}
+				}
+				if o.End == "panic" {
+					if pc := panicCode(o.Msg); pc >= 0 && pc != s.Out.Val {
+						return false, fmt.Sprintf("dies with panic value %q, predicted value number %d", o.Msg, s.Out.Val)
+					}
+				}
+				return true, ""
+			}
+			if ok, _ := agree(nat); !ok {
+				discards[bi]++
+				continue
+			}
+			if ok, why := agree(obs[n]); !ok {
+				fails[bi] = append(fails[bi], fail{s, obs[n], why})
+			}
+		}
+	})
+	nd := 0
+	for _, d := range discards {
+		nd += d
+	}
+	c.Add("spec_guard_discards", nd)
+	c.Add("traces_validated_against_impl", len(scens)-nd)
+	for _, fl := range fails {
+		for _, f := range fl {
+			files := map[string]string{"scenario.json": f.s.raw + "\n", "predicted.txt": strings.Join(f.s.want, "\n") + "\nend=" + f.s.Out.End + "\n", "observed.txt": f.got.Raw + "\nend=" + f.got.End + " " + f.got.Msg + "\n"}
+			for n, content := range render([]*scenario{f.s}) {
+				files["prog/"+n] = content
+			}
+			pj, _ := json.Marshal(f.s.P)
+			c.Report(core.Case{Keys: classify(f.s), Summary: fmt.Sprintf("defer/panic/recover scenario %s: compiled program %s (native Go agrees with the specification)", pj, f.why), Files: files})
+		}
+	}
+}
+
+var allOps = []string{"emit", "set", "ret", "panic", "rte", "call", "recover", "goexit", "d.emit", "d.rec", "d.recnest", "d.recbuiltin", "d.setres", "d.recset", "d.repanic", "d.panic", "d.call"}
+
+type scenCfg struct {
+	name  string
+	n     int
+	l     []int
+	ops   []string
+	sim   int
+	depth int
+}
+
+func enumerate(c *core.Ctx, sc scenCfg, into map[string]*scenario) bool {
+	pj, _ := json.Marshal(map[string]any{"N": sc.n, "L": sc.l, "ops": sc.ops, "out": "scen.ndjson"})
+	o := tlcx.Opts{Module: "UnwindScen", Cfg: "SPECIFICATION Spec\nINVARIANT SemOK Emit\nCHECK_DEADLOCK FALSE\n", Workers: 8, Timeout: 20 * time.Minute,
+		Files: map[string]string{"c08_params.json": string(pj)}}
+	if sc.sim > 0 {
+		o.SimNum = sc.sim / 8
+		o.Depth = sc.depth
+		o.Seed = c.Seed
+	}
+	r, err := tlcx.Run(c, o)
+	if !tlcx.MustComplete(c, r, err, "UnwindScen "+sc.name) {
+		return false
+	}
+	err = tlcx.ReadNDJSON(filepath.Join(r.Dir, "scen.ndjson"), func(raw json.RawMessage) error {
+		var inner string
+		if err := json.Unmarshal(raw, &inner); err != nil {
+			return nil // torn line
+		}
+		s := &scenario{raw: inner}
+		if err := json.Unmarshal([]byte(inner), s); err != nil {
+			return nil
+		}
+		pk, _ := json.Marshal(s.P)
+		s.want = s.lines()
+		into[string(pk)] = s
+		return nil
+	})
+	if err != nil {
+		c.Infra(err)
+		return false
+	}
+	if sc.sim == 0 {
+		c.Set("exhaustive_config_"+sc.name, fmt.Sprintf("N=%d L=%v ops=%d kinds: %d states", sc.n, sc.l, len(sc.ops), r.Distinct))
+	}
+	return true
+}
+
+// Run is the C08 check.
+func Run(c *core.Ctx, pool *gjs.Pool) {
+	rng := rand.New(rand.NewSource(c.Seed))
+	c.Assumef("panic values are observed as (class, value number); the wording of run-time error messages beyond the identifying clause is not compared")
+	c.Assumef("panic(nil) is excluded (its meaning depends on the language version)")
+	scens := map[string]*scenario{}
+	var cfgs []scenCfg
+	if c.Thorough() {
+		cfgs = []scenCfg{
+			{name: "one-function", n: 1, l: []int{4}, ops: allOps},
+			{name: "two-functions", n: 2, l: []int{2, 3}, ops: allOps},
+			{name: "sim-3", n: 3, l: []int{4, 4, 3}, ops: allOps, sim: 60000, depth: 40},
+		}
+	} else {
+		cfgs = []scenCfg{
+			{name: "one-function", n: 1, l: []int{3}, ops: allOps},
+			{name: "sim-3", n: 3, l: []int{3, 3, 3}, ops: allOps, sim: 6000, depth: 40},
+		}
+	}
+	for _, sc := range cfgs {
+		if !enumerate(c, sc, scens) {
+			return
+		}
+	}
+	c.Phase("enumerate")
+	keys := make([]string, 0, len(scens))
+	for k := range scens {
+		keys = append(keys, k)
+	}
+	sort.Strings(keys)
+	rng.Shuffle(len(keys), func(i, j int) { keys[i], keys[j] = keys[j], keys[i] })
+	max := c.Pick(3000, 400000)
+	if len(keys) > max {
+		keys = keys[:max]
+	}
+	list := make([]*scenario, len(keys))
+	for i, k := range keys {
+		list[i] = scens[k]
+		if list[i].hasOp(func(o Op) bool {
+			return o.Kind == "defer" || o.Kind == "panic" || o.Kind == "rte" || o.Kind == "goexit"
+		}) {
+			c.Distinct(k)
+		}
+	}
+	c.Set("evaluations", len(list))
+	c.Set("rule", "function families enumerated by TLC from UnwindScen.tla (exhaustive small bound + -simulate for three functions); one evaluation = one family executed once; distinct_nontrivial = distinct families containing a defer, panic, run-time error or Goexit")
+	c.Set("checker_cmd", "tlc UnwindScen (INVARIANT SemOK Emit); tlc RtePanics (INVARIANT Emit)")
+	runScenarios(c, pool, list)
+	c.Phase("unwind_scenarios")
+	runRte(c, pool)
+	c.Phase("rte_scenarios")
+	for i, s := range list {
+		if i%(len(list)/3+1) == 0 {
+			c.Sample(map[string]any{"family": json.RawMessage(s.raw)})
+		}
+	}
+}
